@@ -28,11 +28,12 @@ def same_density(a, b):
 class C05(Check):
     pid = 'C05'
     validate = True
+    fork_logging = True       # DEBUG logging on/off is a symbolic input of every path
     anchors = [('src/fast_ticc/likelihood.py', 'point_log_likelihood_fast'),
                ('src/fast_ticc/likelihood.py', 'point_log_likelihood'),
                ('src/fast_ticc/likelihood.py', 'all_points_all_clusters_log_likelihood_fast'),
                ('src/fast_ticc/likelihood.py', 'all_points_all_clusters_log_likelihood')]
-    obligations = ['point_density_formula', 'table_entry_is_own_point_and_cluster', 'table_uses_current_mrf_mean_logdet',
+    obligations = ['reported_values_are_densities_under_returned_model', 'point_density_formula', 'table_entry_is_own_point_and_cluster', 'table_uses_current_mrf_mean_logdet',
                    'point_wrapper_uses_cluster_fields', 'likelihood_logdet_argument_in_double_range']
     obligation_text = {
         'point_density_formula': 'point_log_likelihood_fast == 1/2 (l - (x-mu)^T Theta (x-mu) - NW ln 2pi) for symbolic x, mu, symmetric Theta, l',
@@ -72,6 +73,10 @@ class C05(Check):
                                split=2))
         for n in ([1, 40, 100] if tier == 'quick' else [1, 40, 100, 200]):
             cfgs.append(Config('finite_n%d' % n, self.finite, {'n': n}))
+        # end to end: what the front end REPORTS per point is the density under the mean and the MRF it returns
+        for (T, lim) in ([(2, 1), (3, 2), (4, 1)] if tier == 'quick' else [(2, 1), (3, 1), (3, 2), (4, 1), (4, 2), (5, 1)]):
+            cfgs.append(Config('reported_T%d_lim%d' % (T, lim), self.reported, {'T': T, 'K': 2, 'lim': lim},
+                               split=4, robust=True, witness_every=5))
         return cfgs
 
     def point(self, c, N, W):
@@ -138,6 +143,38 @@ class C05(Check):
                     g.append(same_density(R(tab2[p, k]), gauss_logpdf(data[p], st.clusters[k].stacked_data_mean, Th,
                                                                       core.log_term(R(stubs.det_exact(Th))), n)))
         c.prove('table_uses_current_mrf_mean_logdet', conj(g))
+
+    def reported(self, c, T, K, lim):
+        """The real front end (relabel step, kernels, per-point reader, result assembly real; fitting phases
+        arbitrary diagonally-dominant MRFs): every reported per-point value is the log-density of that point
+        under the mean of its cluster in the FINAL model and the MRF the call RETURNS for that cluster."""
+        from . import c06
+        Rp = self.R
+        n = 1
+        h = c06.C06()
+        h.R = Rp
+        data = stubs.const_array([[c06.data_pattern(i, j) for j in range(n)] for i in range(T)])
+        data._b.writeable = False
+        b = c.real('b', 0)
+        c.notes.update({'T': T, 'K': K, 'n': n, 'form': 'scalar', 'lim': lim, 'lens': [T], 'joint': False, 'kind': 'reported'})
+        call = lambda: Rp.front_end.ticc_labels(data, window_size=1, num_clusters=K, iteration_limit=lim,
+                                                min_cluster_size=1, sparsity_weight=0.1, label_switching_cost=b)
+        ok, res, ml = h._run(c, call, K, n, lim)
+        if not ok:
+            return
+        labs = [int(x) for x in res.point_labels]
+        c.notes['labels'] = labs
+        # the final model: the output of the last phase that produced a model state
+        final = [t for t in ml.trace if t[1] in ('statistics', 'optimise', 'relabel', 'repopulate')][-1][3]
+        f = [len(res.all_log_likelihood) == T, len(res.markov_random_fields) == K]
+        if all(f):
+            order = [i for k in range(K) for i in range(T) if labs[i] == k]
+            for j, i in enumerate(order):
+                k = labs[i]
+                Th = res.markov_random_fields[k]
+                want = gauss_logpdf(data[i], final.clusters[k].stacked_data_mean, Th, R(h.ld.logdet(Th)), n)
+                f.append(R(res.all_log_likelihood[j]) == want)
+        c.prove('reported_values_are_densities_under_returned_model', conj(f))
 
     def finite(self, c, n):
         Rp = self.R
